@@ -607,6 +607,20 @@ func (e *env) runAct(name string) *action {
 		if conn == nil {
 			return nil
 		}
+		// not while an earlier application write on this stream is still waiting
+		// for its acknowledgement: SetWriteDeadline concurrent with Write is a
+		// different question (see the report) and would make this rule's verdict
+		// depend on it
+		e.mu.Lock()
+		w := e.acts["ibb.write"]
+		e.mu.Unlock()
+		if w != nil && !w.finished() {
+			e.settle(w)
+			if !w.finished() {
+				e.c.Count("ibb_local_close_skipped_write_pending", 1)
+				return nil
+			}
+		}
 		e.mu.Lock()
 		e.ibbAck = mode // what the peer does with this stream's <close/> / <data/> requests from now on
 		e.mu.Unlock()
